@@ -8,7 +8,7 @@ Join::schema (+ JoinOperator::{has_unique_constraint, expr_has_unique_constraint
 import re
 
 from . import facts
-from .core import Src, Anchor, find, walk, walk_guards, show, path_of, is_call_to, pat_binds
+from .core import Src, Anchor, find, walk, walk_guards, show, path_of, is_call_to, pat_binds, is_node
 from .flow import Taint
 from .c14_injective import INJECTIVE, NOT_INJECTIVE, ROW_UNIQUE
 
@@ -76,6 +76,26 @@ def pat_variants(p, enum):
 def bool_table(rep, rid, fn, enum, all_variants):
     """`match self { A | B => true, _ => false }` -> set of variants mapped to true."""
     m = block_value(fn.body)
+    if m is not None and m["k"] == "macro" and str(m.get("name", "")).split("::")[-1] == "matches" and m.get("args") and len(m["args"]) == 2 and path_of(m["args"][0]) == "self":
+        # `matches!(self, A | B(_))` == `match self { A | B(_) => true, _ => false }` (the pattern is parsed as an expression: alternatives joined by `|`)
+        alts, st = [], [m["args"][1]]
+        while st:
+            x = st.pop()
+            if x["k"] == "binary" and x["op"] == "|":
+                st += [x["lhs"], x["rhs"]]
+            elif x["k"] == "paren":
+                st.append(x["e"])
+            else:
+                alts.append(x)
+        true = set()
+        for x in alts:
+            pth = path_of(x["f"]) if x["k"] == "call" else path_of(x)
+            segs = (pth or "").split("::")
+            if x["k"] not in ("call", "path") or len(segs) < 2 or segs[-2] != enum or (x["k"] == "call" and any(show(a_, 0) not in ("_", "..") for a_ in x["args"])):
+                rep.undecidable(rid, fn.qual + "@shape", "matches! alternative not understood: %s" % show(x, 60), fn.where())
+                return None
+            true.add(segs[-1])
+        return true
     if m is None or m["k"] != "match" or path_of(m["e"]) != "self":
         rep.undecidable(rid, fn.qual + "@shape", "body is not `match self { .. }`", fn.where())
         return None
@@ -201,8 +221,22 @@ def u1(rep, src):
             elif ar.get(v) != "Arity::Nary(0)":
                 rep.violation("U1", "is_unique@%s@arity" % v, "Function::%s has arity %s" % (v, ar.get(v)), isu.where())
     # --- bijection.rs: descent only under is_bijection()
+    from .canon import canon_view
+
+    def pos_guard(g):
+        """(condition, polarity) of an `if` guard with leading negations folded into the polarity"""
+        c, pol = g[1], g[2]
+        while is_node(c) and c.get("k") == "unary" and c.get("op", "").strip() == "!":
+            c, pol = c["e"], not pol
+        while is_node(c) and c.get("k") == "paren":
+            c = c["e"]
+        return c, pol
+
+    def cv(fn):  # `if let` / early returns / named locals read as the `match` form
+        return canon_view(fn, src, iflet=True, helpers=False)
+
     for name in ("reduce_modulo_bijection", "is_unique"):
-        f = src.one_fn(name=name, file=BJ, self_ty="Expr")
+        f = cv(src.one_fn(name=name, file=BJ, self_ty="Expr"))
         n = 0
         in_clo = set(id(y) for c in find(f.body, "closure") for y in walk(c))
         for x, guards in walk_guards(f.body):
@@ -210,13 +244,13 @@ def u1(rep, src):
                 if name == "is_unique" and id(x) not in in_clo:
                     continue  # `function.is_unique()` is the leaf test on the Function, not a descent
                 n += 1
-                ok = any(g[0] == "if" and g[2] is True and g[1]["k"] == "mcall" and g[1]["m"] == "is_bijection" and not g[1]["args"] for g in guards)
+                ok = any(g[0] == "if" and pos_guard(g)[1] is True and pos_guard(g)[0]["k"] == "mcall" and pos_guard(g)[0]["m"] == "is_bijection" and not pos_guard(g)[0]["args"] for g in guards)
                 rep.instance("U1", "Expr::%s@descent" % name, {"fn": f.qual, "recursive_call": show(x, 60), "guarded_by_is_bijection": ok})
                 if not ok:
                     rep.violation("U1", "Expr::%s@descent" % name, "Expr::%s descends into an argument outside the `function.is_bijection()` branch" % name, "src/%s:%d" % (BJ, x["l"]))
         if n == 0 and name == "reduce_modulo_bijection":
             rep.undecidable("U1", "Expr::%s@descent" % name, "no recursive descent found", f.where())
-    f = src.one_fn(name="is_unique", file=BJ, self_ty="Expr")
+    f = cv(src.one_fn(name="is_unique", file=BJ, self_ty="Expr"))
     for x, guards in walk_guards(f.body):
         if x["k"] == "mcall" and x["m"] == "is_unique" and path_of(x["recv"]) is not None and not x["args"] and x["recv"]["p"] != "self":
             # function.is_unique() (receiver bound by the Expr::Function pattern) vs arg.is_unique() (closure param): keep the former
@@ -229,7 +263,7 @@ def u1(rep, src):
                 rep.violation("U1", "Expr::is_unique@leaf", "row-uniqueness is not read from the function of an Expr::Function node", "src/%s:%d" % (BJ, x["l"]))
     for x in find(f.body, "lit", lambda l: l["t"] == "bool" and l["v"] is True):
         rep.violation("U1", "Expr::is_unique@true", "Expr::is_unique returns a literal `true`", "src/%s:%d" % (BJ, x["l"]))
-    f = src.one_fn(name="into_column_modulo_bijection", file=BJ, self_ty="Expr")
+    f = cv(src.one_fn(name="into_column_modulo_bijection", file=BJ, self_ty="Expr"))
     red = [l["pat"]["name"] for l in find(f.body, "let") if l.get("init") is not None and l["pat"]["k"] == "ident" and l["init"]["k"] == "mcall" and l["init"]["m"] == "reduce_modulo_bijection" and path_of(l["init"]["recv"]) == "self"]
     m = block_value(f.body)
     if m is None or m["k"] != "match" or not (path_of(m["e"]) in red or (m["e"]["k"] == "mcall" and m["e"]["m"] == "reduce_modulo_bijection" and path_of(m["e"]["recv"]) == "self")):
